@@ -40,6 +40,10 @@ pub fn gen(r: &mut Rng) -> Value {
     if names.is_empty() {
         return json!({"text": ""});
     }
+    if r.chance(1, 15) {
+        // the collection form of json_encode over every prepared handle (nested, cyclic, cycle entered from outside)
+        return json!({"lines": [{"name": "json_encode", "args": ["--collection", r.pick(&HANDLES)]}]});
+    }
     if r.chance(1, 12) {
         // a document parsed into variables and encoded back (object / array paths with names outside ASCII)
         return json!({"lines": [{"name": "json_parse", "args": [r.pick(&DOCS)]}, {"name": "json_encode", "args": ["out"]}]});
@@ -70,7 +74,7 @@ pub fn gen(r: &mut Rng) -> Value {
                     if coll {
                         if i == 0 { r.pick(&HANDLES).to_string() } else if r.chance(1, 2) { r.pick(&NUMS).to_string() } else { r.pick(&TEXTS).to_string() }
                     } else if name.contains("json") {
-                        if r.chance(1, 3) { r.pick(&["--collection", "-c", "v", "out"]).to_string() } else { r.pick(&DOCS).to_string() }
+                        match r.below(5) { 0 => r.pick(&["--collection", "-c", "v", "out"]).to_string(), 1 | 2 => r.pick(&HANDLES).to_string(), _ => r.pick(&DOCS).to_string() }
                     } else if name.contains("semver") {
                         r.pick(&["1.2.3", "1.2", "0.0.0", "1.2.3-alpha+7", "v1.2.3", "", "99999999999999999999.1.1", "1.2.3.4", "a.b.c"]).to_string()
                     } else if name == "calc" || name.starts_with("hex") || name.contains("than") || name.starts_with("random") {
